@@ -98,3 +98,10 @@ MUTANTS += [
  {"id": "tr-struct-field-order-reversed", "props": ["C03"], "edits": [("pymtl3/passes/backends/verilog/translation/structural/VStructuralTranslatorL2.py", "    make_indent( field_decls, 1 )\n    field_decl = '\\n'.join( field_decls )", "    make_indent( field_decls, 1 )\n    field_decl = '\\n'.join( reversed( field_decls ) if len( field_decls ) == 4 else field_decls )")]},
  {"id": "tr-sizecast-negative-not-truncated", "props": ["C03"], "edits": [("pymtl3/passes/backends/verilog/translation/behavioral/VBehavioralTranslatorL2.py", "    rhs = s.visit_expr_wrap( node.right )\n\n    return f'{lhs} {op} {rhs}'", "    rhs = s.visit_expr_wrap( node.right )\n    if op == '-' and lhs.startswith( '(' ): return f'{rhs} {op} {lhs}'\n    return f'{lhs} {op} {rhs}'")], "count": 1},
 ]
+
+MUTANTS += [
+ {"id": "revert-F-N1", "props": ["C13"], "edits": [("pymtl3/passes/backends/verilog/util/utility.py", "  if len( full_name ) < 64 and re.fullmatch( r'[A-Za-z_][A-Za-z0-9_$]*', full_name ):", "  if len( full_name ) < 64 and not any([c in full_name for c in [' ', '<', '>', '.', '[', ']']]):")]},
+ {"id": "name-ignores-param-k", "props": ["C13"], "edits": [("pymtl3/passes/rtlir/util/utility.py", "    comp_name += '__' + arg_name + '_' + get_string(arg_value)", "    comp_name += '__' + arg_name + '_' + ( get_string(arg_value) if arg_name != 'k' else 'x' )")]},
+ {"id": "connections-in-set-order", "props": ["C13"], "edits": [("pymtl3/passes/rtlir/structural/StructuralRTLIRGenL1Pass.py", "    ordered_conns = [ *m.get_connect_order() ]", "    ordered_conns = list( set( m.get_connect_order() ) )")]},
+ {"id": "name-hash-from-python-hash", "props": ["C13"], "edits": [("pymtl3/passes/backends/verilog/util/utility.py", "  param_name = param_hash.hexdigest()", "  param_name = format( hash( full_name ) & 0xffffffffffffffff, '016x' )")]},
+]
